@@ -1,7 +1,7 @@
 (* C06: the rank-wise criterion Housed (descending sizes fit descending rooms) yields a concrete allocation: pairwise distinct rooms
    of the given list, each large enough for its course (courses of effective size 0 need none). *)
 From Coq Require Import List Arith Lia Bool Permutation FinFun.
-Require Import RoomThms.
+Require Import HP5 RoomThms.
 Import ListNotations.
 Open Scope nat_scope.
 
@@ -35,3 +35,68 @@ Proof.
     { rewrite <- (Hgh' (g c) (Hrank c Hc Hp)), <- (Hgh' (g c') (Hrank c' Hc' Hp')). f_equal. exact E. }
     rewrite <- (Hhg c Hc), <- (Hhg c' Hc'), H0. reflexivity.
 Qed.
+
+(* ---------------------------------------------------------------- the converse: any such allocation implies Housed *)
+Lemma filter_length_perm {A} (f : A -> bool) l l' : Permutation l l' -> length (filter f l) = length (filter f l').
+Proof.
+  induction 1; simpl; try lia.
+  - destruct (f x); simpl; lia.
+  - destruct (f x), (f y); simpl; lia.
+Qed.
+Lemma filter_map_comm' {A B} (g : A -> B) (f : B -> bool) : forall l, filter f (map g l) = map g (filter (fun a => f (g a)) l).
+Proof. induction l as [|a t IH]; simpl; [reflexivity|]. destruct (f (g a)); simpl; rewrite IH; reflexivity. Qed.
+Lemma filter_length_index (f : nat -> bool) : forall l, length (filter f l) = length (filter (fun j => f (nth j l 0)) (seq 0 (length l))).
+Proof.
+  induction l as [|x t IH]; [reflexivity|]. cbn [length seq]. rewrite <- seq_shift. cbn [filter nth]. rewrite filter_map_comm'.
+  destruct (f x); cbn [length]; rewrite map_length, IH; reflexivity.
+Qed.
+(* k distinct positions whose entries satisfy f: at least k entries satisfy f *)
+Lemma count_ge_of_indices (f : nat -> bool) l J : NoDup J -> (forall j, In j J -> j < length l /\ f (nth j l 0) = true) -> length J <= length (filter f l).
+Proof.
+  intros Hn HJ. rewrite filter_length_index. apply NoDup_incl_length; [exact Hn|]. intros j Hj. destruct (HJ j Hj) as [H1 H2].
+  apply filter_In. split; [apply in_seq; lia|exact H2].
+Qed.
+(* in a descending list, if the entry at rank i fails a monotone test, at most i entries pass it *)
+Lemma count_le_sorted (v : nat) l i : (forall a b, a <= b -> b < length l -> nth b l 0 <= nth a l 0) -> nth i l 0 < v ->
+  length (filter (fun x => v <=? x) l) <= i.
+Proof.
+  intros Hs Hi. rewrite filter_length_index.
+  assert (Hincl : incl (filter (fun j => v <=? nth j l 0) (seq 0 (length l))) (seq 0 i)).
+  { intros j Hj. apply filter_In in Hj. destruct Hj as [Hj Hf]. apply in_seq in Hj. apply Nat.leb_le in Hf. apply in_seq.
+    destruct (Nat.lt_ge_cases j i) as [Hl|Hl]; [lia|]. pose proof (Hs i j Hl ltac:(lia)). lia. }
+  pose proof (NoDup_incl_length (NoDup_filter _ (seq_NoDup (length l) 0)) Hincl) as H. rewrite seq_length in H. exact H.
+Qed.
+
+Theorem allocation_housed sizes rooms (alloc : nat -> nat) :
+  (forall c, c < length sizes -> 0 < nth c sizes 0 -> alloc c < length rooms /\ nth c sizes 0 <= nth (alloc c) rooms 0) ->
+  (forall c c', c < length sizes -> c' < length sizes -> 0 < nth c sizes 0 -> 0 < nth c' sizes 0 -> alloc c = alloc c' -> c = c') ->
+  Housed sizes rooms.
+Proof.
+  intros Hfit Hinj i Hi. set (v := nth i (desc sizes) 0).
+  destruct (Nat.eq_dec v 0) as [E|Hv]; [lia|].
+  destruct (Nat.lt_ge_cases (nth i (desc rooms) 0) v) as [Hlt|Hge]; [|exact Hge]. exfalso.
+  (* the i+1 largest courses have size >= v > 0 and pairwise distinct, sufficiently large rooms *)
+  destruct (perm_index_maps sizes) as (g & h & _ & Hh & _ & Hgh).
+  set (J := map (fun r => alloc (h r)) (seq 0 (S i))).
+  assert (Hrank : forall r, r <= i -> h r < length sizes /\ v <= nth (h r) sizes 0).
+  { intros r Hr. destruct (Hh r ltac:(lia)) as [H1 H2]. split; [exact H1|]. rewrite H2. unfold v.
+    apply (desc_sorted sizes r i Hr Hi). }
+  assert (HJ : NoDup J).
+  { unfold J. apply NoDup_map_inj_in; [apply seq_NoDup|]. intros r r' Hr Hr' E. apply in_seq in Hr, Hr'.
+    destruct (Hrank r ltac:(lia)) as [H1 H2]. destruct (Hrank r' ltac:(lia)) as [H1' H2'].
+    assert (h r = h r') by (apply Hinj; try assumption; lia).
+    rewrite <- (Hgh r ltac:(lia)), <- (Hgh r' ltac:(lia)), H. reflexivity. }
+  assert (Hcount : S i <= length (filter (fun x => v <=? x) rooms)).
+  { replace (S i) with (length J) by (unfold J; rewrite map_length, seq_length; reflexivity).
+    apply count_ge_of_indices; [exact HJ|]. intros j Hj. unfold J in Hj. apply in_map_iff in Hj. destruct Hj as (r & <- & Hr). apply in_seq in Hr.
+    destruct (Hrank r ltac:(lia)) as [H1 H2]. destruct (Hfit (h r) H1 ltac:(lia)) as [H3 H4]. split; [exact H3|apply Nat.leb_le; lia]. }
+  rewrite (filter_length_perm _ _ _ (Permutation_sym (desc_perm rooms))) in Hcount.
+  pose proof (count_le_sorted v (desc rooms) i (fun a b Hab Hb => desc_sorted rooms a b Hab ltac:(rewrite desc_length in Hb; exact Hb)) Hlt). lia.
+Qed.
+
+(* Housed is exactly "the courses can be given pairwise distinct, sufficiently large rooms" *)
+Theorem housed_iff_allocation sizes rooms : Housed sizes rooms <->
+  exists alloc : nat -> nat,
+    (forall c, c < length sizes -> 0 < nth c sizes 0 -> alloc c < length rooms /\ nth c sizes 0 <= nth (alloc c) rooms 0) /\
+    (forall c c', c < length sizes -> c' < length sizes -> 0 < nth c sizes 0 -> 0 < nth c' sizes 0 -> alloc c = alloc c' -> c = c').
+Proof. split; [apply housed_allocation|intros (alloc & H1 & H2); apply (allocation_housed sizes rooms alloc H1 H2)]. Qed.
